@@ -41,6 +41,8 @@ type Taint struct {
 	ExtReader   func(name string) (Label, bool)      // framework request readers: result label
 	ExtSink     func(name string) bool               // framework sinks: no write-back, no result
 	ExtErrClean func(name string) bool               // external callees whose error result does not echo their input
+	// ExtOverride: exact label of an external call's result (no inflow from the arguments) when ok
+	ExtOverride func(call ssa.CallInstruction) (Label, bool)
 }
 
 func NewTaint(w *World, fns []*ssa.Function) *Taint {
@@ -456,6 +458,19 @@ func (t *Taint) call(f *ssa.Function, ci ssa.CallInstruction) {
 			}
 		}
 		return
+	}
+	if t.ExtOverride != nil {
+		if l, ok := t.ExtOverride(ci); ok {
+			if res >= 0 {
+				o := t.Obj("ovr:" + valID(ci.Value()))
+				t.addPts(res, o)
+				if l != 0 {
+					t.AddLabel(o, l)
+					t.AddLabel(res, l)
+				}
+			}
+			return
+		}
 	}
 	if t.Source != nil {
 		if l := t.Source(ci); l != 0 && res >= 0 {
